@@ -106,7 +106,8 @@ func GenClass() *rapid.Generator[Class] {
 		}
 		nc := rapid.IntRange(0, 6).Draw(t, "nchars")
 		for i := 0; i < nc; i++ {
-			c.Chars = append(c.Chars, rapid.SampledFrom([]int32{'_', '-', '.', ':', ' ', 'é', '日', 0x1F600, 0xFFFD, ',', '=', '+', 'z', 'Z', '9', 0}).Draw(t, "char"))
+			c.Chars = append(c.Chars, rapid.SampledFrom([]int32{'_', '-', '.', ':', ' ', 'é', '日', 0x1F600, 0xFFFD, ',', '=', '+', 'z', 'Z', '9', 0,
+				0xD800, 0xDFFF, 0x110000, -1, 0x7FFFFFFF} /* the last five are no code points: such an entry allows nothing */).Draw(t, "char"))
 		}
 		return c
 	})
